@@ -21,6 +21,13 @@ SUBSET
                                           one `return <bool expr>` is inlined
               <Consts>.<name> | int literal | a == b | a != b | not a | True | False | `False if c else True`
   statements  x = E | x.<pointer attr> = E (x a local object) | if <bool>: raise ... | return E | `from .m import C` (checked) | docstring
+
+MUTATING METHODS (loads / stores; session 5): a method may take ONE further parameter annotated with a declared class (`ref: Cell`); then
+    def <Class>_<method> (H) (σ : State) (self : Nat) (<param> : Nat) : Option (State × Nat)
+  expressions len(E)  E : REFS -> the length of the list container (NAT);  a >= b, a > b, a <= b, a < b on NAT (an int literal ≥ 0 is a NAT there)
+              E[k]    E : REFS, k : NAT -> the k-th ELEMENT of the list container: the very object stored there (IndexError = none)
+  statements  E.append(x)   E : REFS, x an object -> Py.Heap.appendRef: the list container E is mutated IN PLACE, the element is the object itself
+              self.<nat attr> += k   (k an int literal ≥ 0) -> Py.Heap.setOff: only the record of `self` changes
 """
 import ast
 
@@ -40,8 +47,9 @@ class Decl:
        consts:  {('CellTypes', 'ordinary'): -1, ...}
        imports: {local name: (module, level)} allowed function-level imports"""
 
-    def __init__(self, classes, prims, consts, imports):
+    def __init__(self, classes, prims, consts, imports, elem=None):
         self.classes, self.prims, self.consts, self.imports = classes, prims, consts, imports
+        self.elem = elem                # class of the ELEMENTS of a list container (None: element reads / appends are not translated)
         self.defs = []
         self.done = {}
         self.stack = []
@@ -88,10 +96,19 @@ class HTr:
             if argcls not in decl.classes:
                 raise Untranslatable(f'{fn.name}: the parameter is not annotated with a declared class')
             self.env[names[1]] = ('self', OBJ(argcls))          # the Lean parameter is called `self`
+            self.extra = None
         else:
-            if names != ['self']:
+            if not names or names[0] != 'self' or len(names) > 2:
                 raise Untranslatable(f'{fn.name}: parameters {names}')
             self.env['self'] = ('self', OBJ(cls))
+            self.extra = None
+            if len(names) == 2:
+                ann = a.args[1].annotation
+                argcls = ann.value if isinstance(ann, ast.Constant) else (ast.unparse(ann) if ann is not None else None)
+                if argcls not in decl.classes or names[1] in ('H', 'self', 'cls') or names[1].startswith('σ'):
+                    raise Untranslatable(f'{fn.name}: the parameter is not annotated with a declared class')
+                self.env[names[1]] = (names[1], OBJ(argcls))
+                self.extra = names[1]
         self.k = 0                                # index of the current heap variable
         self.n = 0
         self.lines = []
@@ -163,6 +180,16 @@ class HTr:
                     raise Untranslatable(f'derived attribute {e.attr} has type {vt}')
                 return v, t
             return f'({self.s}.obj {base}).{fld}', t
+        if isinstance(e, ast.Compare) and len(e.ops) == 1 and isinstance(e.ops[0], (ast.GtE, ast.Gt, ast.LtE, ast.Lt)):
+            def nat(x):
+                if isinstance(x, ast.Constant) and isinstance(x.value, int) and not isinstance(x.value, bool) and x.value >= 0:
+                    return str(x.value)
+                v, t = self.expr(x)
+                if t != NAT:
+                    raise Untranslatable(f'ordering of a {t}')
+                return v
+            sym = {ast.GtE: '≥', ast.Gt: '>', ast.LtE: '≤', ast.Lt: '<'}[type(e.ops[0])]
+            return f'(decide ({nat(e.left)} {sym} {nat(e.comparators[0])}))', BOOL
         if isinstance(e, ast.Compare) and len(e.ops) == 1 and isinstance(e.ops[0], (ast.Eq, ast.NotEq)):
             l, r = self.expr(e.left), self.expr(e.comparators[0])
             if l[1] != r[1] or l[1] not in (INT, NAT, BOOL):
@@ -178,6 +205,13 @@ class HTr:
         if isinstance(e, ast.Subscript):
             base, bt = self.expr(e.value)
             s = e.slice
+            if bt == REFS and not isinstance(s, ast.Slice):
+                k, kt = self.expr(s)
+                if kt != NAT or not self.d.elem:
+                    raise Untranslatable('list index is not a known non-negative int')
+                r = self.fresh('c')
+                self.lines.append(f'(Py.Heap.refAt? {self.s} {base} {k}).bind fun {r} =>')
+                return r, OBJ(self.d.elem)
             if bt != REFS or not isinstance(s, ast.Slice) or s.upper is not None or s.step is not None or s.lower is None:
                 raise Untranslatable(f'subscript {ast.unparse(e)[:40]}')
             k, kt = self.expr(s.lower)
@@ -192,6 +226,11 @@ class HTr:
         f = e.func
         if e.keywords:
             raise Untranslatable('keyword arguments')
+        if isinstance(f, ast.Name) and f.id == 'len' and 'len' not in self.env and len(e.args) == 1:
+            v, t = self.expr(e.args[0])
+            if t != REFS:
+                raise Untranslatable(f'len of a {t}')
+            return f'({self.s}.refBuf {v}).length', NAT
         if isinstance(f, ast.Name):
             cname = self.cls if (f.id == 'cls' and self.classmethod) else f.id
             c = self.d.classes.get(cname)
@@ -292,6 +331,26 @@ class HTr:
                 raise Untranslatable('condition')
             self.lines.append(f'if {c} then none else')
             return self.block(rest)
+        if (isinstance(s, ast.Expr) and isinstance(s.value, ast.Call) and isinstance(s.value.func, ast.Attribute) and s.value.func.attr == 'append'
+                and len(s.value.args) == 1 and not s.value.keywords):
+            lst, lt = self.expr(s.value.func.value)
+            x, xt = self.expr(s.value.args[0])
+            if lt != REFS or xt != OBJ(self.d.elem or '?'):
+                raise Untranslatable(f'append of a {xt} to a {lt}')
+            prev = self.s
+            self.k += 1
+            self.lines.append(f'let {self.s} := Py.Heap.appendRef {prev} {lst} {x}')
+            return self.block(rest)
+        if (isinstance(s, ast.AugAssign) and isinstance(s.op, ast.Add) and isinstance(s.target, ast.Attribute) and isinstance(s.target.value, ast.Name)
+                and s.target.value.id == 'self' and not self.classmethod and isinstance(s.value, ast.Constant) and isinstance(s.value.value, int)
+                and not isinstance(s.value.value, bool) and s.value.value >= 0):
+            at = self.d.classes[self.cls]['attrs'].get(s.target.attr)
+            if at is None or at != (NAT, 'off'):
+                raise Untranslatable(f'assignment {ast.unparse(s)[:40]}')
+            prev = self.s
+            self.k += 1
+            self.lines.append(f'let {self.s} := Py.Heap.setOff {prev} self (({prev}.obj self).off + {s.value.value})')
+            return self.block(rest)
         if isinstance(s, ast.Assign) and len(s.targets) == 1:
             tg = s.targets[0]
             if isinstance(tg, ast.Name):
@@ -324,6 +383,7 @@ class HTr:
         lean = f'{self.cls}_{self.fn.name}'
         text = ' '.join(ast.unparse(self.fn).split()).replace('-/', '- /').replace('/-', '/ -')
         body = '\n'.join('  ' + l for l in self.lines)
+        extra = f' ({self.extra} : Nat)' if self.extra else ''
         return dict(lean=lean, ret=self.ret,
                     text=f'/-- {self.cls}.{self.fn.name}\n    source: `{text[:240]}` -/\n'
-                         f'def {lean} (H : Bytes → Bytes) (σ : State) (self : Nat) : Option (State × Nat) :=\n{body}\n')
+                         f'def {lean} (H : Bytes → Bytes) (σ : State) (self : Nat){extra} : Option (State × Nat) :=\n{body}\n')
